@@ -500,3 +500,40 @@ func EvolveForNets(c *RunCtx, spec WorldSpec, maxEpochs, take int) (*World, []*g
 	}
 	return w, gs
 }
+
+// BuildNetwork builds a network by hand from the reference (non-modular part only): the caller's own node objects and
+// links, handed to network.NewNetwork with the all-nodes list in a caller-chosen order. perm permutes the all-nodes
+// list (nil = genome order); inputs and outputs keep genome order, which is the order LoadSensors / ReadOutputs use.
+func (n *RefNet) BuildNetwork(perm []int) *network.Network {
+	nodes := make([]*network.NNode, len(n.Nodes))
+	byId := map[int]*network.NNode{}
+	for i, nd := range n.Nodes {
+		x := network.NewNNode(nd.Id, network.NodeNeuronType(nd.Neuron))
+		x.Id, x.NeuronType, x.ActivationType = nd.Id, network.NodeNeuronType(nd.Neuron), neatmath.NodeActivationType(nd.Act)
+		nodes[i] = x
+		byId[nd.Id] = x
+	}
+	for _, e := range n.Edges {
+		in, out := byId[e.In], byId[e.Out]
+		l := network.NewLink(math.Float64frombits(e.W), in, out, e.Rec)
+		l.InNode, l.OutNode, l.ConnectionWeight, l.IsRecurrent = in, out, math.Float64frombits(e.W), e.Rec
+		in.Outgoing = append(in.Outgoing, l)
+		out.Incoming = append(out.Incoming, l)
+	}
+	var ins, outs []*network.NNode
+	for _, id := range n.Inputs {
+		ins = append(ins, byId[id])
+	}
+	for _, id := range n.Outputs {
+		outs = append(outs, byId[id])
+	}
+	all := make([]*network.NNode, len(nodes))
+	for i := range nodes {
+		j := i
+		if perm != nil {
+			j = perm[i]
+		}
+		all[i] = nodes[j]
+	}
+	return network.NewNetwork(ins, outs, all, 1)
+}
